@@ -376,20 +376,14 @@ def batches(rng, tier):
             if s["kind"] == "hang" or (s["kind"] == "ctor" and n > 3):
                 continue
             core, _ = alphabets(s)
-            if n == 6 and len(core) > 9:
-                # the largest alphabets (12^6 = 3 M vectors per shape) are cut down for the last length: three own names and one token
-                # of every other kind; lengths <= 5 use the full alphabet
-                core = G.own_tokens(s)[:3] + BASE
             ops += ex_ops(s["id"], n, core)
-        yield Batch(f"exhaustive-core-len{n}", ops, exhaustive=True, note=f"all vectors of length {n} over each shape's core alphabet (own names, 5, foo, -, --, --zz, -3, red)" + ("; alphabets with more than 9 tokens cut to 3 own names + 5, foo, -, --, --zz" if n == 6 else ""))
+        yield Batch(f"exhaustive-core-len{n}", ops, exhaustive=True, note=f"all vectors of length {n} over each shape's core alphabet (own names, 5, foo, -, --, --zz, -3, red)")
     for n in range(1, short + 1):
         ops = []
         for s in SHAPES:
             if s["kind"] != "ok":
                 continue
             _, ext = alphabets(s)
-            if n == 4 and len(ext) > 20:
-                continue        # 21..30 tokens: length 3 is the last exhaustive length over the extended alphabet
             ops += ex_ops(s["id"], n, ext)
         yield Batch(f"exhaustive-ext-len{n}", ops, exhaustive=True, note=f"all vectors of length {n} over each shape's extended alphabet (all own names in both dash forms, empty string, numbers at the type limits, enum names, ...)")
     # 3. longer random vectors
